@@ -12,7 +12,7 @@ from . import extract, report
 from .facts import load_config
 
 VERIF = os.path.dirname(os.path.dirname(os.path.abspath(__file__)))
-ROOT = os.path.join(extract.CACHE, "selftest")
+ROOT = os.path.join(extract.CACHE, "selftest", "p%d" % os.getpid())  # per process: several self-tests may run at once
 
 
 def load_mutants():
